@@ -14,7 +14,7 @@ use gamedig::protocols::types::{CommonResponse, ExtraRequestSettings, GatherTogg
 use gamedig::protocols::{gamespy, quake, GenericResponse, Protocol};
 
 pub fn entries() -> Vec<(&'static str, crate::EntryFn)> {
-    vec![("dispatch", entry_dispatch), ("dispatch-module", entry_dispatch_module)]
+    vec![("dispatch", entry_dispatch), ("dispatch-module", entry_dispatch_module), ("extra-conv", entry_extra_conv)]
 }
 
 /// the printed form of whatever a path returned
@@ -162,4 +162,67 @@ fn entry_dispatch_module(args: &[&str]) -> String {
     } else {
         "no-such-module".into()
     }
+}
+
+fn show_toggle(t: &GatherToggle) -> &'static str {
+    match t {
+        GatherToggle::Skip => "s",
+        GatherToggle::Try => "t",
+        GatherToggle::Enforce => "e",
+    }
+}
+
+fn show_extra(e: &ExtraRequestSettings) -> String {
+    format!(
+        "{}:{}:{}:{}:{}",
+        e.hostname.as_ref().map_or("-".to_string(), |h| crate::canon::show_str(h)),
+        e.protocol_version.map_or("-".to_string(), |v| v.to_string()),
+        e.gather_players.as_ref().map_or("-", show_toggle),
+        e.gather_rules.as_ref().map_or("-", show_toggle),
+        e.check_app_id.map_or("-", |b| if b { "T" } else { "F" }),
+    )
+}
+
+/// `extra-conv <E…|->`: the extra request settings built with the public setters (every field given is set with its
+/// `set_*` method on `ExtraRequestSettings::default()`), what each protocol's settings make of them (`From`), and what
+/// `into_extra()` of those settings gives back
+fn entry_extra_conv(args: &[&str]) -> String {
+    use gamedig::protocols::{unreal2, valve};
+    if args.len() != 1 {
+        return "bad-case".into();
+    }
+    let Some(given) = parse_extra(args[0]) else { return "bad-case".into() };
+    let given = given.unwrap_or_default();
+    let mut e = ExtraRequestSettings::default();
+    if let Some(h) = given.hostname.clone() {
+        e = e.set_hostname(h);
+    }
+    if let Some(v) = given.protocol_version {
+        e = e.set_protocol_version(v);
+    }
+    if let Some(t) = given.gather_players.clone() {
+        e = e.set_gather_players(t);
+    }
+    if let Some(t) = given.gather_rules.clone() {
+        e = e.set_gather_rules(t);
+    }
+    if let Some(b) = given.check_app_id {
+        e = e.set_check_app_id(b);
+    }
+    let v: valve::GatheringSettings = e.clone().into();
+    let u: unreal2::GatheringSettings = e.clone().into();
+    let m: gamedig::games::minecraft::RequestSettings = e.clone().into();
+    format!(
+        "X {} | valve {}{}{} u2 {}{} mc {}/{} | vx {} ux {}",
+        show_extra(&e),
+        show_toggle(&v.players),
+        show_toggle(&v.rules),
+        if v.check_app_id { "T" } else { "F" },
+        show_toggle(&u.mutators_and_rules),
+        show_toggle(&u.players),
+        crate::canon::show_str(&m.hostname),
+        m.protocol_version,
+        show_extra(&v.into_extra()),
+        show_extra(&u.into_extra()),
+    )
 }
